@@ -266,7 +266,7 @@ def build(tier, seed):
     from checks import c07
     small = c07.first_connected("v5x5", 3)
     if tier == "quick":
-        return [LatticeFields("v5x5", small, [0.95], 4, [["id"]]),
+        return [LatticeFields("v5x5", small, [0.95, 0.4], 4, [["id"]]),
                 LatticeFields("v5x4", None, [0.95, 0.4], 2, [["rev"]]),
                 Series([["v5x5", small], ["v5x4", None], ["v4x4p%d" % (seed + 1), None]], 2)]
     return [LatticeFields("v5x5", small, [0.95, 0.4], 4, [["id"], ["rev"]]),
